@@ -415,22 +415,33 @@ class ConstFlow:
         if self.hook is not None:
             upd = self.hook(node, dict(state))
             if upd:
-                def app(fs):
-                    if fs is None:
-                        return None
+                def app(fs, u):
+                    if fs is None or not u:
+                        return fs
                     if isinstance(fs, list):
-                        return [app(x) for x in fs]
+                        return [app(x, u) for x in fs]
                     d = dict(fs)
-                    for k, v in upd.items():
+                    for k, v in u.items():
                         if v is None:
                             d.pop(k, None)
                         else:
                             d[k] = v
                     return frozenset(d.items())
-                if isinstance(r, dict):
-                    r = {lab: (v if lab == 'exc' else app(v)) for lab, v in r.items()}
+                per_edge = upd.get('@edges') if isinstance(upd, dict) else None
+                if not isinstance(r, dict):
+                    r = {'exc': r, '*': r}
+                if per_edge is not None:
+                    # {'true': {...}, 'false': {...}}: the effect depends on the outcome of the test (callee's return value)
+                    star = r.get('*')
+                    out = {}
+                    for lab in ('true', 'false', 'next', 'loop'):
+                        base = r.get(lab, star)
+                        if base is not None or lab in r:
+                            out[lab] = app(base, per_edge.get(lab, per_edge.get('*', {})))
+                    out['exc'] = r.get('exc')
+                    r = out
                 else:
-                    r = {'exc': r, '*': app(r)}
+                    r = {lab: (v if lab == 'exc' else app(v, upd)) for lab, v in r.items()}
         return r
 
     def _transfer2(self, node, state):
